@@ -74,6 +74,10 @@ class World:
             else:
                 hp = A.hp_config(self.cfg)
             ag = A.make_agent(self.cfg, index=i, hp=hp, seed=kernel.derive(seed, "agent", i))
+            if self.cfg.get("wrapper") == "RSNorm":
+                from agilerl.wrappers.agent import RSNorm
+
+                ag = RSNorm(ag)
             self.pop.append(ag)
             self.name(ag)
 
@@ -220,6 +224,8 @@ def gen_c01(rng: random.Random, tier: str) -> Dict[str, Any]:
     cfg = A.gen_agent_cfg(rng)
     if cfg["hp"] == "shared":
         cfg["hp"] = "private"  # sharing of the initial config object is attributed to C06
+    if cfg["algo"] in ("DQN", "RainbowDQN", "DDPG", "TD3", "CQN") and cfg["obs"] in ("vector", "dict") and rng.random() < 0.2:
+        cfg["wrapper"] = "RSNorm"  # observation-normalising agent wrapper: its running statistics are agent state too
     n_ops = rng.randint(4, 14 if tier == "quick" else 30)
     ops: List[Dict[str, Any]] = []
     for _ in range(n_ops):
@@ -346,11 +352,7 @@ def run_c01(ctx: kernel.Ctx, case: Dict[str, Any]) -> None:
             ag = w.pick(op["i"])
             slot = w.pop.index(ag)
             data = w.save_bytes(ag)
-            if op["path"] == "load":
-                new = type(ag).load(io.BytesIO(data))
-            else:
-                new = A.make_agent(cfg, index=ag.index, hp=(A.hp_config(cfg) if cfg["hp"] != "none" else None), seed=op.get("seed", 1))
-                new.load_checkpoint(io.BytesIO(data))
+            new = restore(w, ag, data, op["path"], case)
             w.ghosts.append(ag)
             w.pop[slot] = new
             ctx.log(w.name(ag), "crash_restore", {"path": op["path"]})
